@@ -530,7 +530,8 @@ class ClientH(object):
         self._note_status()
 
     def _note_status(self):
-        s = self.udp.status().name if hasattr(self.udp.status(), "name") else str(self.udp.status())
+        s = self.udp.status()
+        s = s.name() if callable(getattr(s, "name", None)) else str(s)
         if not self.status_log or self.status_log[-1][1] != s:
             self.status_log.append((self.world.clock.t, s))
 
@@ -809,7 +810,8 @@ class World(object):
                 ch = self.client_at(dst)
                 if ch is not None and ch.sock is not None and not ch.sock.closed:
                     ch.sock.inbox.append((data, src))
-        if server:
+        if server or (to_server and self.state == "parked"):
+            # a datagram wakes a parked loop at once, exactly as in production
             self.server_tick(to_server)
         elif to_server:
             with self.thread.lk_queue:
